@@ -217,22 +217,37 @@ def _snap_stmts(repo):
 
 
 def snap_float_grid(repo, max_tick=20000):
-    """C20 (float clause, bounded): the extracted snap statements executed by CPython on on-grid and off-grid values"""
-    import math, random
-    src = _snap_stmts(repo)
-    code = compile(src, "<snap_arith>", "exec")
-
-    def snap(x, tps):
-        env = {"math": math, "original": x, "ticks_per_second": tps}
-        exec(code, env)
-        return env["snapped"]
+    """C20 (float clause, bounded): the real `snap` command on files holding on-grid values (k / tps), gentrace-style values
+    (k * (1 / tps)) and random off-grid values, at 8 tick rates; the result is snapped once more to check idempotence."""
+    import csv, io, math, random, tempfile, contextlib
+    sys.path.insert(0, repo)
+    logging.disable(logging.CRITICAL)
+    from eudoxia import tools
     kinds, first, total = {}, {}, 0
     rng = random.Random(1)
-    for tps in (1, 2, 3, 7, 10, 100, 1000, 100000):
-        for k in range(0, max_tick, 1 if tps <= 100 else 3):
-            for x, on_grid in ((k / tps, True), (k * (1.0 / tps), False), (k / tps + rng.random() / tps, False)):
+    hdr = ["pipeline_id", "arrival_seconds", "priority", "operator_id", "parents", "baseline_cpu_seconds", "cpu_scaling", "memory_gb", "storage_read_gb"]
+    with tempfile.TemporaryDirectory() as d:
+        for tps in (1, 2, 3, 7, 10, 100, 1000, 100000):
+            vals = []
+            for k in range(0, max_tick, 1 if tps <= 100 else 3):
+                vals += [(k / tps, True), (k * (1.0 / tps), False), (k / tps + rng.random() / tps, False)]
+            src, out1, out2 = (os.path.join(d, f"{n}{tps}.csv") for n in ("in", "s1_", "s2_"))
+            with open(src, "w", newline="") as f:
+                w = csv.writer(f)
+                w.writerow(hdr)
+                for i, (x, _g) in enumerate(vals):
+                    w.writerow([f"p{i}", repr(x), "QUERY", "op1", "", "1", "const", "", "1"])
+            with contextlib.redirect_stdout(io.StringIO()):
+                tools.snap_command(src, out1, tps, force=True)
+                tools.snap_command(out1, out2, tps, force=True)
+            once = [float(r["arrival_seconds"]) for r in csv.DictReader(open(out1))]
+            twice = [float(r["arrival_seconds"]) for r in csv.DictReader(open(out2))]
+            if len(once) != len(vals) or len(twice) != len(vals):
+                kinds["rows-lost"] = kinds.get("rows-lost", 0) + 1
+                first.setdefault("rows-lost", {"ticks_per_second": tps, "in": len(vals), "out": len(once)})
+                continue
+            for (x, on_grid), y, z in zip(vals, once, twice):
                 total += 1
-                y = snap(x, tps)
                 bad = None
                 if y > x:
                     bad = "moved-up"
@@ -240,13 +255,13 @@ def snap_float_grid(repo, max_tick=20000):
                     bad = "moved-a-tick-or-more"
                 elif on_grid and y != x:
                     bad = "on-grid-value-moved"
-                elif snap(y, tps) != y:
+                elif z != y:
                     bad = "not-idempotent"
                 if bad:
                     kinds[bad] = kinds.get(bad, 0) + 1
-                    first.setdefault(bad, {"original": x, "ticks_per_second": tps, "snapped": y})
-    return {"name": "bounded:snap-float-grid", "ok": not kinds, "bounded": f"ticks < {max_tick} at 8 tick rates, on-grid, gentrace-style and random off-grid values",
-            "cases": total, "kinds": kinds, "witness": first, "finding_kinds": sorted(kinds), "statements": src,
+                    first.setdefault(bad, {"original": x, "ticks_per_second": tps, "snapped": y, "snapped_twice": z})
+    return {"name": "bounded:snap-float-grid", "ok": not kinds, "bounded": f"ticks < {max_tick} at 8 tick rates, on-grid, gentrace-style and random off-grid values, through the real snap command",
+            "cases": total, "kinds": kinds, "witness": first, "finding_kinds": sorted(kinds),
             "detail": "never up, by less than a tick, on-grid fixed, idempotent" if not kinds else f"deviations: {kinds}"}
 
 
